@@ -16,7 +16,8 @@ RULE = ('span pairs: old span = every prefix (quick: length 0..3, thorough 0..5)
         'Index / PeriodIndex Y and Q / DatetimeIndex, with new spans of the same or another span type; each container carries a float, an int, '
         'a bool and a <U2 series (models: status <U1 and iterations too, after solving a prefix of the periods); fill_value and per-variable '
         'fills rotate through a palette (None, bools, ints, halves, nan, inf, strings that fit / are truncated / do not parse), unknown fill '
-        'names x strict argument None/True/False x object strict flag; old spans with duplicates; the new span being the original span '
+        'names x strict argument None/True/False x object strict flag; histories (an earlier reindex call with other fill arguments on the same '
+        'object or on a sibling instance of the same class); old spans with duplicates; the new span being the original span '
         'object; the pandas mixin with default and explicit arguments and fill methods; a tracer-extended model. Non-trivial = at least one '
         'overlapping and one new period, or an exception path; distinct by hash of the whole case.')
 TRUSTED = ['label / value encoding harness/locate_common.py and harness/props/C12.py',
@@ -224,13 +225,34 @@ def _attrs(c):
     return out
 
 
+def _fresh_fsic():
+    """Every case starts from freshly imported fsic modules: class-level state left behind by an earlier case in the same worker
+    (a leak is itself a defect, exercised on purpose by the `prior` histories) must not make a replay irreproducible."""
+    import sys
+    for k in [k for k in sys.modules if k == 'fsic' or k.startswith('fsic.')]:
+        del sys.modules[k]
+
+
 def impl(case):
     import numpy as np
     import pandas as pd
+    _fresh_fsic()
     old = lc.build_span(case['old'])
     c = _build(case, old)
     new = c.span if case.get('same_span_object') else lc.build_span(case['new'])
     new_spec = case['old'] if case.get('same_span_object') else case['new']
+    # history: earlier reindex calls (on this object or on a sibling instance of the same class) must not influence the call observed
+    for pr in case.get('prior', []):
+        target = c if pr.get('same_object') else _build(case, old)
+        kw0 = {}
+        if pr.get('fill_value') is not None:
+            kw0['fill_value'] = dec_pv(pr['fill_value'])
+        for name, v in pr.get('fills', []):
+            kw0[name] = dec_pv(v)
+        try:
+            target.reindex(lc.build_span(pr['new']), **kw0)
+        except Exception:
+            pass
     objmap = {}
     obs = {}
     before = _snapshot(c, objmap)
@@ -638,6 +660,10 @@ def bucket(case, obs):
 
 
 def shrink_candidates(case):
+    if case.get('prior'):
+        c = copy.deepcopy(case)
+        del c['prior']
+        yield c
     if case.get('fills'):
         for i in range(len(case['fills'])):
             c = copy.deepcopy(case)
@@ -771,6 +797,25 @@ def gen(rng, tier):
     for n_old, new_n, solved in itertools.product((3, 4), (2, 4, 5), (0, 2)):
         cases.append({'cls': 'BMT', 'old': fams[0][2](n_old), 'new': fams[0][2](new_n), 'vars': [], 'solved': solved,
                       'fill_value': None, 'fills': [], 'strict': None, 'obj_strict': False})
+    # histories: an earlier reindex call with per-variable fills / a fill_value, on the same object or on a sibling instance of
+    # the same class, then the call under observation with other (or no) fill arguments
+    hk = 0
+    prior_fills = [[['F', ['f', 2.5]], ['I', ['i', 7]]], [['status', ['s', 'F']], ['iterations', ['i', 9]]], [['X', ['f', 9.0]], ['S', ['s', 'z']], ['B', ['b', True]]]]
+    for fname, uni, mk, _ in fams[:2] + fams[3:4] + fams[6:7]:
+        for n_old, n_new in ((2, 3), (3, 4), (1, 2)):
+            for cls in ('BM', 'VC', 'BMP'):
+                for pf in prior_fills:
+                    for same in (False, True):
+                        hk += 1
+                        names = ['F', 'I', 'B', 'S'] + (['status', 'iterations', 'X', 'Y'] if cls != 'VC' else [])
+                        pr = {'new': mk(n_new), 'fills': [f for f in pf if f[0] in names], 'fill_value': [None, ['i', 3]][hk % 2], 'same_object': same}
+                        c = {'cls': cls, 'old': mk(n_old), 'new': mk(n_new) if hk % 3 else {'type': 'list', 'labels': [uni[i] for i in (n_new, 0)]},
+                             'vars': STD_VARS, 'solved': hk % 3, 'fill_value': None, 'fills': [], 'strict': None, 'obj_strict': False, 'prior': [pr]}
+                        if cls == 'BMP':
+                            c['pandas'] = {}
+                        if hk % 4 == 0:
+                            c['fills'] = [['F', ['f', -0.5]]]
+                        cases.append(c)
     # the pandas mixin: default arguments, explicit fills, fill methods
     pk = 0
     for fname, uni, mk, _ in fams:
